@@ -403,6 +403,9 @@ impl Scenario for SniffSim {
         }));
         drop(local);
         drop(rt);
+        if let Some(m) = crate::net::take_spin() {
+            out.violations.push(Violation::new("C08", "spins_after_end_of_stream", json!({"stream": "any"}), format!("a reader in the library keeps reading a closed connection in a loop without yielding: {}", m)));
+        }
         for p in simrt::take_panics() {
             if p.in_harness() {
                 out.harness_error = Some(format!("harness panic {} at {}", p.message, p.location()));
